@@ -27,9 +27,16 @@ def transparent(n):
 # ---------------------------------------------------------------------------------------------------
 # values
 # ---------------------------------------------------------------------------------------------------
-def type_value(de, length='min', variant=0):
+def type_value(de, length='min', variant=0, shape=None):
     dt, mn, mx = G.dataele()[de]
     n = max(mn, 1) if length == 'min' else mx
+    if shape == 'signed':
+        # legal but unusual spellings: a real with sign and bare fraction (sign and point do not count towards
+        # the length), a string made of punctuation
+        if dt == 'R':
+            return '-.' + '5' * n
+        if dt == 'AN':
+            return ('-.' * n)[:n] if n > 1 else '-'
     if dt in ('AN', 'ID', 'B'):
         return ('A' if variant == 0 else 'B') * n
     if dt == 'R' or dt[0] == 'N':
@@ -104,7 +111,7 @@ def ele_value(e, seg, plan, qual_for_1251=None):
         if not ext:
             raise Ungeneratable('no member of external set %s fits %s' % (e.ext, e.id))
         return ext[0] if plan.get('code', 'first') == 'first' else ext[-1]
-    v = type_value(de, plan.get('length', 'min'))
+    v = type_value(de, plan.get('length', 'min'), shape=plan.get('shape'))
     if e.regex and not re.search(e.regex, v):
         if re.search(e.regex, '123456789') and fits(de, '123456789'):
             v = '123456789'
@@ -441,6 +448,11 @@ def build(entry, plan):
         counts['/ISA_LOOP'] = counts.get('/ISA_LOOP', 0) + 1
         L1 = [('/ISA_LOOP', counts['/ISA_LOOP'])]
         doc.segs.append(mkseg(isa_seg, plan)); doc.nodes.append(isa_seg); doc.lpaths.append(tuple(L1))
+        if plan.get('ta1'):
+            # the interchange acknowledgement segment(s) the map allows between ISA and the first GS
+            for o in others:
+                if o.kind == 'seg' and o.usage != 'N' and o.pos <= gs_loop.pos:
+                    doc.segs.append(mkseg(o, dict(plan, fill_all=True))); doc.nodes.append(o); doc.lpaths.append(tuple(L1))
         for g in range(plan.get('groups', 1)):
             counts['/ISA_LOOP/GS_LOOP'] = counts.get('/ISA_LOOP/GS_LOOP', 0) + 1
             L2 = L1 + [('/ISA_LOOP/GS_LOOP', counts['/ISA_LOOP/GS_LOOP'])]
@@ -652,6 +664,9 @@ def plans_d1(entry):
     yield ('two-sets', {'sets': 2})
     yield ('two-groups', {'groups': 2})
     yield ('two-interchanges', {'interchanges': 2})
+    yield ('signed', {'shape': 'signed'})
+    yield ('signed-all-filled', {'shape': 'signed', 'all': True, 'fill_all': True})
+    yield ('signed-maxlen', {'shape': 'signed', 'length': 'max', 'all': True, 'fill_all': True})
     st = None
     for n in G.walk(root):
         if n.kind not in ('loop', 'seg') or not n.path.startswith('/ISA_LOOP/GS_LOOP/ST_LOOP/'):
@@ -689,3 +704,4 @@ def plans_swapped(entry):
     (structurally valid for C08/C09), but they are not 'walked in order', so C02 does not claim acceptance"""
     yield ('all-swapped', {'all': True, 'swap_samepos': True})
     yield ('all-filled-swapped', {'all': True, 'fill_all': True, 'swap_samepos': True})
+    yield ('ta1-two-groups', {'ta1': True, 'groups': 2, 'interchanges': 2})
